@@ -320,6 +320,19 @@ def run_fill(rect, max_cells, ctx):
                 at = 'Sheet1!H%d' % n
                 cells[at] = '=%s(%s)' % (func, sp)
                 probes.append((at, func, sp))
+        # the rectangle has rows x columns members whatever is blank: every
+        # member, blank or not, differs from "~"; and it pairs off, position
+        # by position, with a dense rectangle of the same shape
+        mirror = '%s%d:%s%d' % (chr(ord(W.COLS[c1]) + 10), r1,
+                                chr(ord(W.COLS[c2]) + 10), r2)
+        for (r, c) in addrs:
+            cells['Sheet1!%s%d' % (chr(ord(W.COLS[c]) + 10), r)] = 1
+        for func, text in (('CELLS', 'COUNTIF(%s,"<>~")' % rng),
+                           ('PAIRED', 'SUMPRODUCT(%s,%s)' % (rng, mirror))):
+            n += 1
+            at = 'Sheet1!H%d' % n
+            cells[at] = '=' + text
+            probes.append((at, func, text))
         try:
             model = lib.compile_dict(cells)
         except Exception as exc:  # noqa: BLE001
@@ -335,8 +348,12 @@ def run_fill(rect, max_cells, ctx):
                 tags.append('ref:dollar')
             if None in vals:
                 tags.append('fill:has-blank')
+            want = lib.norm(len(vals)) if func == 'CELLS' else \
+                range_expect(vals, 'SUM' if func == 'PAIRED' else func)
+            if func in ('CELLS', 'PAIRED'):
+                tags.append('oracle:shape')
             ctx.check('C03/fill/%s/mask=%d/%s(%s)' % (rng, mask, func, sp),
-                      got, range_expect(vals, func), tags,
+                      got, want, tags,
                       {'family': 'fill', 'rect': list(rect), 'mask': mask,
                        'max_cells': max_cells}, len(addrs) >= 2)
         lib.clear_caches()
@@ -562,6 +579,14 @@ def names_book():
         'parts': 'Sheet1!$A$1:$A$2,Sheet1!$C$3:$D$4',
         # the dollar sign of a sheet name is not an absolute marker
         'drng': "'US$'!$A$1:$B$1",
+        # names that end like the mantissa of a number in scientific
+        # notation (FY21E+FY22E is not 21E+...)
+        'FY21E': 'Sheet1!$C$1',
+        'FY22E': 'Sheet1!$D$2',
+        # a sheet may have a name of its own with the text of a workbook
+        # name: on the other sheets the workbook's name is meant
+        ('US$', 'nm'): "'US$'!$D$4",
+        ('US$', 'rng'): "'US$'!$C$3:$D$4",
     }
     v = book.value
     s1, s2, s3 = titles
@@ -570,19 +595,30 @@ def names_book():
     rngsum = sum(v(s1, c, r) for r in (1, 2) for c in 'AB')
     qsum = sum(v(s2, 'A', r) for r in (1, 2, 3))
     for host in titles:
+        for text, want in (
+                ('=FY21E+FY22E', v(s1, 'C', 1) + v(s1, 'D', 2)),
+                ('=FY21E-FY22E', v(s1, 'C', 1) - v(s1, 'D', 2)),
+                ('=FY21E-1', v(s1, 'C', 1) - 1),
+                ('=2*FY22E+1', 2 * v(s1, 'D', 2) + 1)):
+            book.add_probe(host, text,
+                           'C03/names/host=%s/%s' % (host, text[1:]),
+                           lib.norm(want), ['name:cell', 'name:ends-in-E'])
         book.add_probe(host, '=SUM(drng)',
                        'C03/names/host=%s/SUM(drng)' % host,
                        lib.norm(v(s3, 'A', 1) + v(s3, 'B', 1)),
                        ['name:range', 'name:quoted-sheet',
                         'sheetname:dollar'])
-        book.add_probe(host, '=nm+1', 'C03/names/host=%s/nm+1' % host,
-                       lib.norm(v(s1, 'B', 2) + 1),
-                       ['name:cell'])
-        book.add_probe(host, '=SUM(rng)', 'C03/names/host=%s/SUM(rng)' % host,
-                       lib.norm(rngsum), ['name:range'])
-        book.add_probe(host, '=COUNTA(rng)',
-                       'C03/names/host=%s/COUNTA(rng)' % host, lib.norm(4),
-                       ['name:range'])
+        if host != s3:
+            # (on the sheet that has names nm and rng of its own, those are
+            # meant - which the library does not know of: not judged)
+            book.add_probe(host, '=nm+1', 'C03/names/host=%s/nm+1' % host,
+                           lib.norm(v(s1, 'B', 2) + 1), ['name:cell'])
+            book.add_probe(host, '=SUM(rng)',
+                           'C03/names/host=%s/SUM(rng)' % host,
+                           lib.norm(rngsum), ['name:range'])
+            book.add_probe(host, '=COUNTA(rng)',
+                           'C03/names/host=%s/COUNTA(rng)' % host,
+                           lib.norm(4), ['name:range'])
         book.add_probe(host, '=SUM(parts)',
                        'C03/names/host=%s/SUM(parts)' % host,
                        lib.norm(partsum), ['name:range', 'name:two-areas'])
